@@ -1,7 +1,7 @@
 //! Long single histories ("soak"): one operation kind applied to N distinct inputs on one thread, then the early
 //! inputs again. A bounded-depth history cannot reach state whose capacity is counted in entries (a cache with 256 or
 //! 1024 slots, a table that is evicted round robin); a long run of distinct inputs fills such state, and the verdicts
-//! for the early inputs afterwards must be what they were. N = 1100 (thorough 4200) exceeds 1024 (4096).
+//! for the early inputs afterwards must be what they were. N = 4200 (thorough 66 000) exceeds 4096 (65 536).
 use crate::common::*;
 use crate::engine::*;
 use crate::refmodel::{self as rf, RefSuite, Scheme, SCHEMES};
@@ -19,13 +19,16 @@ pub enum Kind {
 
 pub struct MSoak<C: Suite> {
     prop: &'static str,
+    /// distinct inputs that are produced AND verified
     n: usize,
+    /// operations of the producing side alone (sign / prove), verified only at sampled positions: beyond 2^16
+    n_produce: usize,
     _c: PhantomData<C>,
 }
 
 impl<C: Suite> MSoak<C> {
     pub fn new(prop: &'static str, tier: Tier) -> Self {
-        MSoak { prop, n: if tier.thorough() { 4200 } else { 1100 }, _c: PhantomData }
+        MSoak { prop, n: if tier.thorough() { 66_000 } else { 4200 }, n_produce: if tier.thorough() { 140_000 } else { 70_000 }, _c: PhantomData }
     }
     fn kinds(&self) -> Vec<Kind> {
         match self.prop {
@@ -65,6 +68,7 @@ impl<C: Suite> Model for MSoak<C> {
         let Some(kind) = st else { return };
         o.nontrivial = true;
         let (p, g, n) = (self.prop, C::G, self.n);
+        let n_produce = self.n_produce;
         let before = o.violations_len();
         let r = guard(|| -> Vec<(String, bool, String)> {
             let mut bad: Vec<(String, bool, String)> = vec![];
@@ -84,7 +88,7 @@ impl<C: Suite> Model for MSoak<C> {
                         pops.push(pr);
                     }
                     // second pass over early, middle and late keys
-                    for j in (0..n).step_by(97).chain([1, 2, 255, 256, 1023, 1024.min(n - 2)]) {
+                    for j in (0..n).step_by(97).chain([1, 2, 255, 256, 1023, 1024, 4095, 4096.min(n - 2)]) {
                         let j = j.min(n - 2);
                         chk("own-proof-after-soak", pops[j].verify(pks[j]).is_ok(), format!("key #{}", j));
                         chk("other-key-after-soak", pops[j].verify(pks[j + 1]).is_err(), format!("proof #{} for key #{}", j, j + 1));
@@ -99,6 +103,19 @@ impl<C: Suite> Model for MSoak<C> {
                         // and the reference agrees on the genuine one
                         chk("reference-accepts-own-proof", rf::pop_verify::<C::R>(&Vec::<u8>::from(&pks[j]), &Vec::<u8>::from(&pops[j])), format!("key #{}", j));
                     }
+                    // producing side alone, past 2^16 operations on this thread: every proof is produced, sampled ones verified
+                    let sample = |i: usize| i % 4999 == 0 || [255usize, 256, 1023, 1024, 4095, 4096, 32767, 32768, 65534, 65535, 65536, 65537].contains(&i);
+                    for i in 0..n_produce {
+                        let k = SecretKey::<C>::from_hash(format!("soak-producer-{}", i));
+                        match k.proof_of_possession() {
+                            Ok(pr) => {
+                                if sample(i) {
+                                    chk("produced-proof-verifies", pr.verify(k.public_key()).is_ok(), format!("operation #{}", i));
+                                }
+                            }
+                            Err(e) => chk("proof-of-possession-produced", false, format!("operation #{}: {}", i, e)),
+                        }
+                    }
                 }
                 Kind::SignVerify(s) => {
                     let s = *s;
@@ -112,11 +129,25 @@ impl<C: Suite> Model for MSoak<C> {
                         chk("first-pass-verify", sg.verify(&pk, msg(i)).is_ok(), format!("message #{}", i));
                         sigs.push(sg);
                     }
-                    for j in (0..n).step_by(97).chain([1, 2, 255, 256, 1023, 1024.min(n - 2)]) {
+                    for j in (0..n).step_by(97).chain([1, 2, 255, 256, 1023, 1024, 4095, 4096.min(n - 2)]) {
                         let j = j.min(n - 2);
                         chk("own-message-after-soak", sigs[j].verify(&pk, msg(j)).is_ok(), format!("message #{}", j));
                         chk("other-message-after-soak", sigs[j].verify(&pk, msg(j + 1)).is_err(), format!("signature #{} for message #{}", j, j + 1));
                         chk("signature-bytes-after-soak", pt(sk.sign(lib_scheme(s), &msg(j)).expect("sign").as_raw_value()) == rf::enc(&rf::sign::<C::R>(&rsk, s, &msg(j))), format!("message #{}", j));
+                    }
+                    // producing side alone, past 2^16 operations on this thread
+                    let sample = |i: usize| i % 4999 == 0 || [255usize, 256, 1023, 1024, 4095, 4096, 32767, 32768, 65534, 65535, 65536, 65537].contains(&i);
+                    for i in 0..n_produce {
+                        let m = format!("soak producer message {}", i).into_bytes();
+                        match sk.sign(lib_scheme(s), &m) {
+                            Ok(sg) => {
+                                if sample(i) {
+                                    chk("produced-signature-verifies", sg.verify(&pk, &m).is_ok(), format!("operation #{}", i));
+                                    chk("produced-signature-bytes", pt(sg.as_raw_value()) == rf::enc(&rf::sign::<C::R>(&rsk, s, &m)), format!("operation #{}", i));
+                                }
+                            }
+                            Err(e) => chk("signature-produced", false, format!("operation #{}: {}", i, e)),
+                        }
                     }
                 }
             }
